@@ -13,7 +13,7 @@ type CosimCase struct {
 	Expect  [][]string             `json:"expect"` // admissible traces
 }
 
-func (w *Worker) crossCheck(lits []*Term, want string) string {
+func (w *Worker) crossCheck(pc *PC, extra []*Term, want string) string {
 	if !w.cfg.XCheck {
 		return ""
 	}
@@ -21,14 +21,14 @@ func (w *Worker) crossCheck(lits []*Term, want string) string {
 		w.xsol = NewSolver(CVC5, w.tc, w.cfg.TimeoutMs)
 	}
 	w.st.XQueries++
-	r := w.xsol.Check(lits)
+	r := w.xsol.CheckPC(pc, extra...)
 	out := "cvc5:" + r
 	if w.cfg.XCheck2 {
 		if w.xsol2 == nil {
 			w.xsol2 = NewSolver(Z3New, w.tc, w.cfg.TimeoutMs)
 		}
 		w.st.XQueries++
-		r2 := w.xsol2.Check(lits)
+		r2 := w.xsol2.CheckPC(pc, extra...)
 		out += " z3new:" + r2
 		if r2 != want {
 			return "DISAGREE " + out
@@ -42,11 +42,22 @@ func (w *Worker) crossCheck(lits []*Term, want string) string {
 
 // model extracts values of the named inputs of this path after a sat answer of w.sol.
 func (w *Worker) model(s *State) (map[string]interface{}, error) {
-	vals, err := w.sol.Values(s.inputs)
-	if err != nil {
-		return nil, err
+	var vals map[int]string
+	var err error
+	if w.oneShotVals != nil {
+		vals = w.oneShotVals
+	} else {
+		vals, err = w.sol.Values(s.inputs)
+		if err != nil {
+			return nil, err
+		}
 	}
 	out := map[string]interface{}{}
+	for _, c := range s.choices {
+		if c.Kind == "choose" {
+			out["choose."+c.Name] = c.Pick
+		}
+	}
 	for _, in := range s.inputs {
 		raw, ok := vals[in.ID]
 		if !ok {
@@ -129,12 +140,31 @@ func (w *Worker) doAssert(s *State, label string, cond *Term) {
 	viol := tc.And(ncond, tc.Not(tc.Or(knownPreds...)))
 	key := fmt.Sprintf("%s|%d|%d", label, viol.ID, pcID(s.pc))
 	w.st.PropQueryKeys[key] = true
-	lits := append(s.pc.lits(), viol)
+	extra := []*Term{viol}
 	w.st.PropQueries++
-	r := w.sol.Check(lits)
+	w.oneShotVals = nil
+	r := w.propCheck(s, extra)
 	switch r {
 	case "sat":
-		xc := w.crossCheck(lits, "sat")
+		if s.abst != nil {
+			// abstract, then confirm: re-ask with the exact definitions of every summary on this path
+			ex := append([]*Term(nil), extra...)
+			for a := s.abst; a != nil; a = a.prev {
+				ex = append(ex, tc.Eq(a.uf, a.exact))
+			}
+			w.st.PropQueries++
+			r2 := w.propCheck(s, ex)
+			if r2 == "unsat" {
+				w.st.Inconclusive = append(w.st.Inconclusive, "abstraction too coarse for "+label+": counterexample exists only under the uninterpreted summaries")
+				break
+			}
+			if r2 != "sat" {
+				w.st.Inconclusive = append(w.st.Inconclusive, fmt.Sprintf("confirmation of %s with exact arithmetic: %s", label, r2))
+				break
+			}
+			extra = ex
+		}
+		xc := w.crossCheck(s.pc, extra, "sat")
 		if strings.HasPrefix(xc, "DISAGREE") {
 			w.st.Inconclusive = append(w.st.Inconclusive, "solver disagreement on "+label+": "+xc)
 		} else {
@@ -143,7 +173,7 @@ func (w *Worker) doAssert(s *State, label string, cond *Term) {
 			w.recordViolation(s, label, "", xc)
 		}
 	case "unsat":
-		xc := w.crossCheck(lits, "unsat")
+		xc := w.crossCheck(s.pc, extra, "unsat")
 		if strings.HasPrefix(xc, "DISAGREE") {
 			w.st.Inconclusive = append(w.st.Inconclusive, "solver disagreement on "+label+": "+xc)
 		}
@@ -162,9 +192,23 @@ func (w *Worker) doAssert(s *State, label string, cond *Term) {
 		if !w.cfg.KnownIDs[p.id] {
 			continue
 		}
-		l2 := append(s.pc.lits(), ncond, p.pred)
+		if _, have := w.st.Known[p.id+"|"+label]; have {
+			continue // one replayable witness per (finding, assertion) and worker is enough
+		}
+		l2 := []*Term{ncond, p.pred}
 		w.st.PropQueries++
-		if w.sol.Check(l2) == "sat" {
+		w.oneShotVals = nil
+		if w.propCheck(s, l2) != "sat" {
+			continue // no witness even under the (over-approximating) summaries
+		}
+		if s.abst != nil {
+			for a := s.abst; a != nil; a = a.prev {
+				l2 = append(l2, tc.Eq(a.uf, a.exact))
+			}
+			w.st.PropQueries++
+			w.oneShotVals = nil
+		}
+		if s.abst == nil || w.propCheck(s, l2) == "sat" {
 			w.recordViolation(s, label, p.id, "")
 		}
 	}
@@ -219,6 +263,10 @@ func (w *Worker) finishPath(s *State) {
 		}
 		return
 	}
+	if w.cfg.concrete != nil {
+		w.traces = append(w.traces, w.trace(s))
+		return
+	}
 	// co-simulation sample
 	if w.cfg.Cosim > 0 && len(w.st.CosimCases) < w.cfg.Cosim && s.obs != nil {
 		w.seq++
@@ -231,7 +279,8 @@ func (w *Worker) finishPath(s *State) {
 
 // model2 asks the solver for a model of the path condition itself.
 func (w *Worker) model2(s *State) (map[string]interface{}, error) {
-	r := w.sol.Check(s.pc.lits())
+	w.oneShotVals = nil
+	r := w.sol.CheckPC(s.pc)
 	if r != "sat" {
 		return nil, fmt.Errorf("path condition not sat: %s", r)
 	}
@@ -288,4 +337,49 @@ func sortedKeys(m map[string]int) []string {
 	}
 	sort.Strings(ks)
 	return ks
+}
+
+// propCheck decides a property query: incremental solver first, one-shot process if that says
+// unknown.
+func (w *Worker) propCheck(s *State, extra []*Term) string {
+	lits := append(s.pc.lits(), extra...)
+	for _, l := range lits {
+		if l.HasFP { // floating point: the incremental core does not finish; go straight to one-shot
+			w.st.OneShot++
+			r2, vals := w.sol.OneShotKind(CVC5, lits, s.inputs, w.cfg.TimeoutMs)
+			if r2 != "sat" && r2 != "unsat" {
+				r2, vals = w.sol.OneShotKind(Z3, lits, s.inputs, w.cfg.TimeoutMs*3)
+			}
+			if r2 == "sat" {
+				w.oneShotVals = vals
+			}
+			return r2
+		}
+	}
+	r := "unknown"
+	if w.hardStreak < 3 {
+		r = w.sol.CheckPC(s.pc, extra...)
+		if r == "unknown" {
+			w.hardStreak += 2
+		} else if w.hardStreak > 0 {
+			w.hardStreak--
+		}
+	} else {
+		w.hardTick++
+		if w.hardTick%16 == 0 {
+			w.hardStreak = 0
+		}
+	}
+	if r == "unknown" {
+		w.st.OneShot++
+		r2, vals := w.sol.OneShotKind(CVC5Int, lits, s.inputs, w.cfg.TimeoutMs)
+		if r2 == "unknown" {
+			r2, vals = w.sol.OneShotKind(Z3New, lits, s.inputs, w.cfg.TimeoutMs)
+		}
+		if r2 == "sat" {
+			w.oneShotVals = vals
+		}
+		return r2
+	}
+	return r
 }
